@@ -116,6 +116,10 @@ func genFileCase(c *Ctx) (*fileCase, *Violation) {
 		fc.ind = indentStrs[t.Draw(len(indentStrs))]
 	}
 	n := 1 + t.Small(5)
+	if t.Draw(10) == 9 {
+		n = 6 + t.Small(12) // now and then a long list
+		c.C["probe.long_maps_lists"]++
+	}
 	if !fc.json {
 		mxj.XMLEscapeChars(true)
 	}
